@@ -10,6 +10,8 @@ RULE = ('non-promotable operands of every kind (ints incl. huge, bools, floats i
         'objects, dicts, sets pickled by one interpreter and loaded by another with a different PYTHONHASHSEED, each probed against freshly built equal and unequal bitstrings of all four classes; '
         'pairs and triples over (class, content, length incl. 1999/2000/2001/3601/8193, route, pos); equal contents, single-bit differences at the start, middle (outside the hashed ends) '
         'and end; promotable right operands (str, bytes, list, bitarray) and non-promotable ones (int, float, None, object, dict); hash input captured at run time and compared with the model; '
+        'results of combining constructions (join with empty / non-empty separators over every pattern of empty and non-empty items of every promotable kind, chains of + either way round, *, &|^~, shifts, '
+        'in-place chains, several tokens in one string, pack, cut + join, joins of joins) against the content computed on str, probed like every other object, again after moving pos and after in-place changes of inputs / result; '
         'non-trivial = both sides non-empty; distinct by arguments')
 ASSUMPTIONS = ['hash() of a tuple is a function of the tuple (only congruence is used)']
 
@@ -18,6 +20,7 @@ def gen_cases(rng, tier):
     yield from gen_odd(rng, tier)
     yield from gen_derive(rng, tier)
     yield from gen_xproc(rng, tier)
+    yield from gen_combine(rng, tier)
 
 def _gen_base(rng, tier):
     N = 300 if tier == 'quick' else 4000
@@ -448,7 +451,374 @@ def run_odd(c):
         return out
     return attempt(f, secs=20)
 
-def kind(c): return c['op']
+# ---------------------------------------------------------------------------------------------------------------------------------
+# "... independent of how either side was built": objects that are the RESULT of a combining construction - join (separator empty /
+# non-empty, no items / one item / items that are empty at the front, at the back, in the middle, all empty, items of every promotable
+# kind, the sequence a list / tuple / one-shot iterator), chains of + with a bitstring or a promotable operand on either side, * and
+# reflected *, &, |, ^ (also reflected), ~, shifts, in-place chains on the mutable classes (+=, append, prepend, *=, insert),
+# several tokens in one string, pack of several tokens, a bitstring cut to pieces and joined again, a join of joins.
+# The content the result must have is computed on str ('0' / '1') with str.join, +, * and character-wise operators; the result is then
+# probed like every other object (==, != both ways against all four classes, hash, set / dict membership, promotable operands, a
+# one-bit difference at the end / in the middle, a length difference), again after the stream position was moved, after the inputs were
+# changed in place, and the inputs are probed after the result was changed in place.
+# ---------------------------------------------------------------------------------------------------------------------------------
+COMBINE_HOWS = ['join', 'join', 'join', 'add', 'radd', 'mul', 'rmul', 'bitwise', 'rbitwise', 'invert', 'shift', 'inplace', 'tokens', 'pack', 'cut_join', 'slices_join', 'nested_join']
+ITEM_KINDS = CLASSES + ['str', 'hexstr', 'octstr', 'tokenstr', 'list', 'tuple', 'bitarray', 'frozenbitarray', 'bytes', 'bytearray', 'memoryview', 'array_B', 'bytesio'] + ITERATOR_KINDS
+ITEM_PATTERNS = ['none', 'single', 'single_empty', 'all_empty', 'leading_empties', 'trailing_empties', 'middle_empties', 'both_ends_empty', 'alternating', 'no_empties', 'random', 'random']
+
+def _operand(kind, bits, route='bin'):
+    if kind in CLASSES: return build(kind, bits, route)
+    if kind == 'hexstr': return ('0x' + format(int(bits, 2), f'0{len(bits) // 4}x')) if bits else ''
+    if kind == 'octstr': return ('0o' + format(int(bits, 2), f'0{len(bits) // 3}o')) if bits else ''
+    if kind == 'tokenstr': return f'uint:{len(bits)}={int(bits, 2)}' if bits else ''
+    if kind == 'frozenbitarray':
+        import bitarray
+        return bitarray.frozenbitarray(bits)
+    if kind == 'memoryview': return memoryview(promotable(bits, 'bytes'))
+    if kind == 'array_B':
+        import array
+        return array.array('B', promotable(bits, 'bytes'))
+    if kind == 'bytesio':
+        import io
+        return io.BytesIO(promotable(bits, 'bytes'))
+    return promotable(bits, kind)
+
+def _fit_kind(kind, bits):
+    """a kind that can hold these bits (whole bytes for bytes-like kinds, whole nibbles for a hex string)"""
+    if kind in ('bytes', 'bytearray', 'memoryview', 'array_B', 'bytesio') and len(bits) % 8: return 'bitarray' if kind in ('bytes', 'bytearray') else 'frozenbitarray'
+    if kind == 'hexstr' and len(bits) % 4: return 'str'
+    if kind == 'octstr' and len(bits) % 3: return 'tokenstr'
+    return kind
+
+def _seq(items, seqkind):
+    if seqkind == 'tuple': return tuple(items)
+    if seqkind == 'gen': return (x for x in items)
+    if seqkind == 'iter': return iter(items)
+    if seqkind == 'map': return map(lambda x: x, items)
+    if seqkind == 'deque':
+        import collections
+        return collections.deque(items)
+    return list(items)
+
+def _flip(s): return ''.join('1' if ch == '0' else '0' for ch in s)
+
+def combine_model(c):
+    """(bits of the result, class of the result) on str"""
+    how = c['how']; its = [b for _, b, _ in c['items']]
+    if how == 'join': return c['sep'].join(its), c['cls']
+    if how in ('add', 'radd', 'tokens'): return ''.join(its), c['cls']
+    if how == 'pack': return ''.join(its), 'BitStream'
+    if how in ('mul', 'rmul'): return its[0] * c['k'], c['cls']
+    if how in ('bitwise', 'rbitwise'):
+        f = {'and': lambda a, b: a == b == '1', 'or': lambda a, b: '1' in (a, b), 'xor': lambda a, b: a != b}[c['bop']]
+        return ''.join('1' if f(a, b) else '0' for a, b in zip(its[0], its[1])), c['cls']
+    if how == 'invert': return _flip(its[0]), c['cls']
+    if how == 'shift':
+        a, k = its[0], min(c['k'], len(its[0]))
+        return (a[k:] + '0' * k) if c['bop'] == 'l' else ('0' * k + a[:len(a) - k]), c['cls']
+    if how == 'inplace':
+        cur = its[0]
+        for (step, arg), b in zip(c['steps'], its[1:]):
+            if step in ('iadd', 'append'): cur = cur + b
+            elif step == 'prepend': cur = b + cur
+            elif step == 'imul': cur = cur * arg
+            elif step == 'insert': cur = cur[:arg] + b + cur[arg:]
+        return cur, c['cls']
+    if how == 'cut_join':
+        a, k = its[0], c['k']
+        return c['sep'].join(a[i:i + k] for i in range(0, len(a), k)), c['cls']          # chunks of k bits, the last one holds what is left
+    if how == 'slices_join': return its[0], c['cls']
+    if how == 'nested_join':
+        inner = [c['sep2'].join(its[i:j]) for i, j in zip(c['groups'], c['groups'][1:])]
+        return c['sep'].join(inner), c['cls']
+    raise AssertionError(how)
+
+def combine_build(c):
+    """-> (result, [(input object, its bits)]) ; the inputs are the bitstring operands that went in"""
+    import bitstring
+    how = c['how']; C = cls_of(c['cls']); inputs = []
+    def opnd(i):
+        kind, bits, route = c['items'][i]
+        o = _operand(kind, bits, route)
+        if kind in CLASSES: inputs.append((o, bits))
+        if c.get('item_pos') and hasattr(o, 'pos'): o.pos = len(bits) - len(bits) // 3          # operands that are streams part-way through their data: the whole operand counts
+        return o
+    n = len(c['items'])
+    if how == 'join':
+        sep = build(c['cls'], c['sep'], c['route'], c.get('pos')); inputs.append((sep, c['sep']))
+        return sep.join(_seq([opnd(i) for i in range(n)], c['seqkind'])), inputs
+    if how == 'add':
+        x = opnd(0)
+        for i in range(1, n): x = x + opnd(i)
+        return x, inputs
+    if how == 'radd':
+        # the bitstring is the last operand; everything before it is folded in from the right: p0 + (p1 + (... + x))
+        x = opnd(n - 1)
+        for i in range(n - 2, -1, -1): x = opnd(i) + x
+        return x, inputs
+    if how == 'mul': return opnd(0) * c['k'], inputs
+    if how == 'rmul': return c['k'] * opnd(0), inputs
+    if how in ('bitwise', 'rbitwise'):
+        import operator
+        f = {'and': operator.and_, 'or': operator.or_, 'xor': operator.xor}[c['bop']]
+        a, b = opnd(0), opnd(1)
+        return f(a, b), inputs
+    if how == 'invert': return ~opnd(0), inputs
+    if how == 'shift':
+        a = opnd(0)
+        return (a << c['k']) if c['bop'] == 'l' else (a >> c['k']), inputs
+    if how == 'inplace':
+        x = build(c['cls'], c['items'][0][1], c['items'][0][2])
+        for i, (step, arg) in enumerate(c['steps']):
+            b = opnd(i + 1) if step != 'imul' else None
+            if step == 'iadd': x += b
+            elif step == 'append': x.append(b)
+            elif step == 'prepend': x.prepend(b)
+            elif step == 'imul': x *= arg
+            elif step == 'insert': x.insert(b, arg)
+        return x, inputs
+    if how == 'tokens':
+        toks = []
+        for j, (kind, bits, _) in enumerate(c['items']):
+            if not bits: toks.append('')
+            elif kind == 'hexstr': toks.append('0x' + format(int(bits, 2), f'0{len(bits) // 4}x'))
+            elif kind == 'uint': toks.append(f'uint:{len(bits)}={int(bits, 2)}')
+            elif kind == 'bin': toks.append(f'bin{len(bits)}={bits}')
+            else: toks.append('0b' + bits)
+        return C(', '.join(t for t in toks if t) if c['seqkind'] != 'keep_empty' else ','.join(toks)), inputs
+    if how == 'pack':
+        fmt, vals = [], []
+        for kind, bits, route in c['items']:
+            if kind == 'uint' and bits: fmt.append(f'uint:{len(bits)}'); vals.append(int(bits, 2))
+            elif kind == 'bin' and bits: fmt.append(f'bin:{len(bits)}'); vals.append(bits)
+            elif kind in CLASSES:
+                o = build(kind, bits, route); inputs.append((o, bits)); fmt.append('bits'); vals.append(o)
+            else: fmt.append('bits'); vals.append('0b' + bits if bits else bitstring.Bits())
+        return bitstring.pack(', '.join(fmt), *vals), inputs
+    if how == 'cut_join':
+        a = opnd(0); sep = build(c['cls'], c['sep'], c['route']); inputs.append((sep, c['sep']))
+        return sep.join(a.cut(c['k'])), inputs
+    if how == 'slices_join':
+        a = opnd(0); cuts = [0] + c['cuts'] + [len(c['items'][0][1])]
+        return C().join(_seq([a[i:j] for i, j in zip(cuts, cuts[1:])], c['seqkind'])), inputs
+    if how == 'nested_join':
+        sep = build(c['cls'], c['sep'], c['route']); inputs.append((sep, c['sep']))
+        sep2 = build(c['cls2'], c['sep2'], 'bin'); inputs.append((sep2, c['sep2']))
+        ops = [opnd(i) for i in range(n)]
+        inner = [sep2.join(ops[i:j]) for i, j in zip(c['groups'], c['groups'][1:])]
+        return sep.join(_seq(inner, c['seqkind'])), inputs
+    raise AssertionError(how)
+
+def probe_more(x, bits, tag=''):
+    """further comparisons of x (said to hold `bits`) with promotable operands and with near misses"""
+    import bitstring, bitarray
+    out = {}
+    def rec(k, fn):
+        try: out[tag + k] = fn()
+        except BaseException as e:
+            if isinstance(e, (KeyboardInterrupt, SystemExit, Hang)): raise
+            out[tag + k] = 'exc:' + type(e).__name__
+    n = len(bits)
+    rec('len', lambda: len(x))
+    rec('eq_list', lambda: [x == [int(ch) for ch in bits], x != [ch == '1' for ch in bits]])
+    rec('eq_tuple', lambda: x == tuple(ch == '1' for ch in bits))
+    rec('eq_bitarray', lambda: [x == bitarray.bitarray(bits), x != bitarray.bitarray(bits)])
+    if n % 8 == 0: rec('eq_bytes', lambda: [x == (int(bits, 2).to_bytes(n // 8, 'big') if n else b''), x != (bytearray(int(bits, 2).to_bytes(n // 8, 'big')) if n else bytearray())])
+    rec('eq_gen', lambda: x == (ch == '1' for ch in bits))
+    near = [bits + '0', bits + '1', '0' + bits, bits[:-1], bits[1:]] if n else ['0', '1', '00000000']
+    if n > 2: near += [bits[:n // 2] + _flip(bits[n // 2]) + bits[n // 2 + 1:], _flip(bits[0]) + bits[1:]]
+    near = [b for b in near if b != bits]
+    rec('near_misses', lambda: [[x == bitstring.Bits(bin=b), bitstring.BitArray(bin=b) == x, x != bitstring.ConstBitStream(bin=b), x == ('0b' + b if b else '')] for b in near])
+    return out
+
+def expected_more(bits, tag=''):
+    n = len(bits)
+    exp = {tag + 'len': n, tag + 'eq_list': [True, False], tag + 'eq_tuple': True, tag + 'eq_bitarray': [True, False], tag + 'eq_gen': True}
+    if n % 8 == 0: exp[tag + 'eq_bytes'] = [True, False]
+    k = len([b for b in ([bits + '0', bits + '1', '0' + bits, bits[:-1], bits[1:]] if n else ['0', '1', '00000000']) + ([1, 2] if n > 2 else []) if b != bits])
+    exp[tag + 'near_misses'] = [[False, False, True, False]] * k
+    return exp
+
+def run_combine(c):
+    import bitstring
+    def f():
+        model, mcls = combine_model(c)
+        x, inputs = combine_build(c)
+        out = probe_pair(x, model, 'result.')
+        out.update(probe_more(x, model, 'result.'))
+        out['inputs_intact'] = [o.bin == b and o == bitstring.Bits(bin=b) for o, b in inputs]
+        if hasattr(x, 'pos') and len(model):
+            # == does not depend on the stream position
+            for p in (len(model), len(model) // 2):
+                x.pos = p
+                out[f'pos{p == len(model)}'] = [x == bitstring.Bits(bin=model), bitstring.ConstBitStream(bin=model) == x, x != bitstring.BitStream(bin=model, pos=1), x == ('0b' + model)]
+        # the inputs are changed in place: the result is an object of its own
+        changed = 0
+        for o, b in inputs:
+            if isinstance(o, bitstring.BitArray) and o is not x:
+                o.append('0b1'); o.invert(); changed += 1
+        if changed: out.update({k: v for k, v in probe_pair(x, model, 'after_inputs_changed.').items() if k.split('.')[1] in ('bin', 'eq_Bits', 'eq_BitArray', 'eq_str', 'hash_Bits', 'member_Bits')})
+        # the result is changed in place: it is equal to the new content, and the (immutable) inputs are what they were
+        if isinstance(x, bitstring.BitArray) and c.get('mutate_result'):
+            x.prepend('0b10'); x.append('0x5')
+            if len(model): x.invert(2)
+            m2 = '10' + ((_flip(model[0]) + model[1:]) if model else '') + '0101'
+            out.update({k: v for k, v in probe_pair(x, m2, 'result_changed.').items() if k.split('.')[1] in ('bin', 'eq_Bits', 'eq_BitStream', 'eq_str')})
+            out['inputs_after_result_changed'] = [o.bin == b for o, b in inputs if not isinstance(o, bitstring.BitArray)]
+        return out
+    return attempt(f, secs=30)
+
+def describe_combine(c):
+    sh = lambda b: (b if len(b) <= 24 else b[:20] + f'...({len(b)} bits)')
+    its = ', '.join(f"{k}:{sh(b)!r}" + (f'/{r}' if k in CLASSES and r != 'bin' else '') for k, b, r in c['items'])
+    how = c['how']
+    if how == 'join': return f"{c['cls']}({sh(c['sep'])!r}, route {c['route']}).join({c['seqkind']} of [{its}])"
+    if how == 'add': return f"sum from the left of [{its}] with +"
+    if how == 'radd': return f"[{its}] added with + from the right (the bitstring is the last operand)"
+    if how in ('mul', 'rmul'): return f"{'k * x' if how == 'rmul' else 'x * k'} with k={c['k']}, x = {its}"
+    if how in ('bitwise', 'rbitwise'): return f"{c['bop']} of [{its}]"
+    if how == 'invert': return f"~ of {its}"
+    if how == 'shift': return f"{its} {'<<' if c['bop'] == 'l' else '>>'} {c['k']}"
+    if how == 'inplace': return f"{c['cls']} starting from {its.split(', ')[0]} after the in-place steps {c['steps']} with operands [{its}]"
+    if how == 'tokens': return f"{c['cls']}(one string of the tokens [{its}])"
+    if how == 'pack': return f"pack of the tokens [{its}]"
+    if how == 'cut_join': return f"{c['cls']}({sh(c['sep'])!r}).join(x.cut({c['k']})) for x = {its}"
+    if how == 'slices_join': return f"{c['cls']}().join({c['seqkind']} of the slices of x at {c['cuts']}) for x = {its}"
+    if how == 'nested_join': return f"{c['cls']}({sh(c['sep'])!r}).join of {c['cls2']}({sh(c['sep2'])!r}).join over the groups {c['groups']} of [{its}]"
+    return how
+
+def oracle_combine(c, obs):
+    model, mcls = combine_model(c)
+    where = describe_combine(c)
+    sh = model if len(model) <= 64 else model[:60] + '...'
+    if obs[0] != 'ok': return f"{where}: must give a {mcls} holding {sh!r} ({len(model)} bits, computed on str); the construction / comparison raised {obs}"
+    o = obs[1]
+    exp = expected_probe(mcls, model, 'result.')
+    exp.update(expected_more(model, 'result.'))
+    for k in o:
+        if k.startswith('pos'): exp[k] = [True, True, False, True]
+        if k.startswith('after_inputs_changed.'): exp[k] = expected_probe(mcls, model, 'after_inputs_changed.')[k]
+    if 'inputs_after_result_changed' in o or any(k.startswith('result_changed.') for k in o):
+        m2 = '10' + ((_flip(model[0]) + model[1:]) if model else '') + '0101'
+        e2 = expected_probe(mcls, m2, 'result_changed.')
+        for k in o:
+            if k.startswith('result_changed.'): exp[k] = e2[k]
+        exp['inputs_after_result_changed'] = [True] * len(o.get('inputs_after_result_changed', []))
+    exp['inputs_intact'] = [True] * len(o.get('inputs_intact', []))
+    bad = diff_probe(o, exp)
+    if bad:
+        return (f"{where}: the result must be a {mcls} holding {sh!r} ({len(model)} bits; computed on str with join / + / * / character-wise operators) and compare like any other bitstring with these bits "
+                f"(result.*: ==, != both ways with all four classes, hash, set / dict membership, promotable operands, near misses; pos*: after moving the position; after_inputs_changed.* / result_changed.*: "
+                f"after in-place changes of the inputs / the result); (observed, expected) differ in {str(bad)[:900]}")
+    return None
+
+def gen_combine(rng, tier):
+    thorough = tier != 'quick'
+    SHORT = [1, 1, 1, 2, 3, 4, 7, 8, 8, 9, 15, 16, 17]
+    LONG = [700, 1999, 2000, 2001, 3601]
+    def ilen(): return rng.choice(LONG) if rng.random() < 0.03 else rng.choice(SHORT)
+    def pattern(name=None, maxn=6):
+        name = name or rng.choice(ITEM_PATTERNS)
+        ne = lambda: rand_bits(rng, ilen())
+        k = rng.randrange(1, 4)
+        if name == 'none': return []
+        if name == 'single': return [ne()]
+        if name == 'single_empty': return ['']
+        if name == 'all_empty': return [''] * rng.randrange(2, 5)
+        if name == 'leading_empties': return [''] * k + [ne() for _ in range(rng.randrange(1, 4))]
+        if name == 'trailing_empties': return [ne() for _ in range(rng.randrange(1, 4))] + [''] * k
+        if name == 'middle_empties': return [ne() for _ in range(rng.randrange(1, 3))] + [''] * k + [ne() for _ in range(rng.randrange(1, 3))]
+        if name == 'both_ends_empty': return [''] * k + [ne() for _ in range(rng.randrange(1, 3))] + [''] * rng.randrange(1, 3)
+        if name == 'alternating':
+            first = rng.random() < 0.5
+            return [ne() if (i % 2 == 0) == first else '' for i in range(rng.randrange(2, maxn + 1))]
+        if name == 'no_empties': return [ne() for _ in range(rng.randrange(2, maxn + 1))]
+        return [ne() if rng.random() < 0.6 else '' for _ in range(rng.randrange(0, maxn + 1))]
+    def kinds_for(items, only=None):
+        out = []
+        for b in items:
+            kd = _fit_kind(rng.choice(only or ITEM_KINDS), b)
+            out.append([kd, b, rng.choice(ROUTES) if kd in CLASSES and rng.random() < 0.4 else 'bin'])
+        return out
+    def sepbits(): return rng.choice(['', '1', '0', '01', '10', '11110000', rand_bits(rng, rng.choice([1, 2, 3, 7, 8, 9, 16])), rand_bits(rng, rng.choice([1, 5, 8]))]) if rng.random() > 0.03 else rand_bits(rng, rng.choice([700, 2001]))
+    def base(how, cls, **kw):
+        c = {'op': 'combine', 'how': how, 'cls': cls, 'route': 'bin', 'seqkind': 'list', 'sep': '', 'items': [], 'mutate_result': rng.random() < 0.5, 'item_pos': rng.random() < 0.4}
+        c.update(kw); return c
+    # 1. the small space of join: separators x up to three items out of a handful (all of it in the thorough tier, a sample otherwise)
+    import itertools
+    small = [(cls, sep, list(items)) for cls in CLASSES for sep in ['', '1', '01', '11110000'] for n in range(0, 4) for items in itertools.product(['', '0', '1', '0110'], repeat=n)]
+    if not thorough: small = rng.sample(small, 160)
+    for cls, sep, items in small:
+        homog = rng.random() < 0.5
+        yield base('join', cls, sep=sep, items=[['Bits', b, 'bin'] for b in items] if homog else kinds_for(items), seqkind=rng.choice(['list', 'list', 'tuple', 'gen', 'iter']))
+    # 2. every way of combining x every pattern of empty / non-empty operands
+    N = 420 if not thorough else 9000
+    for i in range(N):
+        how = COMBINE_HOWS[i % len(COMBINE_HOWS)] if i < 6 * len(COMBINE_HOWS) else rng.choice(COMBINE_HOWS)
+        cls = CLASSES[(i // len(COMBINE_HOWS)) % 4] if i < 6 * len(COMBINE_HOWS) else rng.choice(CLASSES)
+        pat = ITEM_PATTERNS[(i // 3) % len(ITEM_PATTERNS)] if i % 2 else None
+        if how == 'join':
+            yield base(how, cls, sep=sepbits(), route=rng.choice(ROUTES) if rng.random() < 0.3 else 'bin', items=kinds_for(pattern(pat)), seqkind=rng.choice(['list', 'list', 'tuple', 'gen', 'iter', 'map', 'deque']),
+                       pos=rng.choice([None, None, 0]))
+        elif how == 'add':
+            items = pattern(pat) or ['']
+            ks = kinds_for(items); ks[0] = [cls, items[0], rng.choice(ROUTES) if rng.random() < 0.3 else 'bin']
+            yield base(how, cls, items=ks)
+        elif how == 'radd':
+            items = pattern(pat) or ['']
+            ks = kinds_for(items, only=['str', 'hexstr', 'octstr', 'tokenstr', 'list', 'tuple', 'bitarray', 'bytes', 'bytearray', 'memoryview', 'gen', 'iter_truthy']); ks[-1] = [cls, items[-1], rng.choice(ROUTES) if rng.random() < 0.3 else 'bin']
+            yield base(how, cls, items=ks)
+        elif how in ('mul', 'rmul'):
+            b = rng.choice(['', rand_bits(rng, ilen()), rand_bits(rng, rng.choice([1, 8, 9]))])
+            k = rng.choice([0, 1, 2, 3, 5, 8])
+            if len(b) * k > 20000: k = 2
+            yield base(how, cls, items=[[cls, b, rng.choice(ROUTES) if rng.random() < 0.3 else 'bin']], k=k)
+        elif how in ('bitwise', 'rbitwise'):
+            n = rng.choice([1, 2, 7, 8, 9, 16, 17, 64, 2001])
+            a, b = rand_bits(rng, n), rand_bits(rng, n)
+            other = _fit_kind(rng.choice(ITEM_KINDS if how == 'bitwise' else ['str', 'hexstr', 'list', 'tuple', 'bytes', 'gen']), b)
+            if how == 'rbitwise' and other in ('bitarray', 'frozenbitarray'): other = 'list'          # a bitarray as the LEFT operand of & | ^ answers itself (bitarray's business, like a numpy scalar's ==)
+            ks = [[cls, a, rng.choice(ROUTES) if rng.random() < 0.3 else 'bin'], [other, b, 'bin']]
+            yield base(how, cls, items=ks if how == 'bitwise' else ks[::-1], bop=rng.choice(['and', 'or', 'xor']))
+        elif how == 'invert':
+            yield base(how, cls, items=[[cls, rand_bits(rng, rng.choice(SHORT + [64, 2001])), rng.choice(ROUTES) if rng.random() < 0.3 else 'bin']])
+        elif how == 'shift':
+            n = rng.choice(SHORT + [64, 2001])
+            yield base(how, cls, items=[[cls, rand_bits(rng, n), rng.choice(ROUTES) if rng.random() < 0.3 else 'bin']], k=rng.choice([0, 1, 2, 7, 8, n - 1, n, n + 3]), bop=rng.choice('lr'))
+        elif how == 'inplace':
+            cls = rng.choice(MUTABLE)
+            items = pattern(pat, maxn=5) or ['']
+            steps = []; cur = len(items[0]); its = [items[0]]
+            for b in items[1:]:
+                st = rng.choice(['iadd', 'append', 'prepend', 'insert', 'imul'])
+                if st == 'imul':
+                    k = rng.choice([0, 1, 2, 3]) if cur < 3000 else 1
+                    steps.append(['imul', k]); its.append(''); cur *= k
+                elif st == 'insert': steps.append(['insert', rng.randrange(0, cur + 1)]); its.append(b); cur += len(b)
+                else: steps.append([st, None]); its.append(b); cur += len(b)
+            ks = kinds_for(its); ks[0] = [cls, its[0], rng.choice(ROUTES) if rng.random() < 0.3 else 'bin']
+            yield base(how, cls, items=ks, steps=steps)
+        elif how == 'tokens':
+            items = pattern(pat)
+            if not any(items) and rng.random() < 0.7: items = items + [rand_bits(rng, 3)]
+            yield base(how, cls, items=[[_fit_kind(rng.choice(['str', 'hexstr', 'uint', 'bin']), b), b, 'bin'] for b in items], seqkind=rng.choice(['list', 'list', 'keep_empty']))
+        elif how == 'pack':
+            items = pattern(pat)
+            yield base(how, 'BitStream', items=[[rng.choice(CLASSES + ['str', 'uint', 'bin']), b, rng.choice(ROUTES) if rng.random() < 0.2 else 'bin'] for b in items])
+        elif how == 'cut_join':
+            k = rng.choice([1, 2, 3, 8, 9])
+            a = rand_bits(rng, rng.choice([0, 1, k - 1, k, k + 1, 2 * k, 3 * k + 1, 5 * k, 64]))
+            yield base(how, cls, items=[[rng.choice(CLASSES), a, rng.choice(ROUTES) if rng.random() < 0.3 else 'bin']], k=k, sep=sepbits(), route='bin')
+        elif how == 'slices_join':
+            n = rng.choice([0, 1, 2, 8, 9, 17, 64, 2001])
+            cuts = sorted(rng.choice([0, n, rng.randrange(0, n + 1), rng.randrange(0, n + 1)]) for _ in range(rng.randrange(0, 5)))
+            yield base(how, cls, items=[[rng.choice(CLASSES), rand_bits(rng, n), rng.choice(ROUTES) if rng.random() < 0.3 else 'bin']], cuts=cuts, seqkind=rng.choice(['list', 'tuple', 'gen']))
+        elif how == 'nested_join':
+            items = pattern(pat)
+            cutp = sorted(rng.randrange(0, len(items) + 1) for _ in range(rng.randrange(0, 4)))
+            yield base(how, cls, items=kinds_for(items), groups=[0] + cutp + [len(items)], sep=sepbits(), sep2=sepbits(), cls2=rng.choice(CLASSES), seqkind=rng.choice(['list', 'gen']))
+
+def kind(c): return c['op'] if c['op'] != 'combine' else 'combine:' + c['how']
 
 def mk_other(c):
     k = c['other']
@@ -477,6 +847,7 @@ def run_impl(c):
     if c['op'] == 'odd': return run_odd(c)
     if c['op'] == 'derive': return run_derive(c)
     if c['op'] == 'xproc': return run_xproc(c)
+    if c['op'] == 'combine': return run_combine(c)
     import bitstring
     if c['op'] == 'triple':
         def f():
@@ -571,6 +942,7 @@ def oracle_new(c, obs):
 
 def oracle(c, obs):
     if c['op'] in ('odd', 'derive', 'xproc'): return oracle_new(c, obs)
+    if c['op'] == 'combine': return oracle_combine(c, obs)
     if obs[0] != 'ok': return f"{c} raised {obs}"
     if c['op'] == 'optpair':
         for r in obs[1]:
@@ -599,7 +971,7 @@ def oracle(c, obs):
         if not o['in_set'] or o['dict'] != 1: return f"{where}: equal bitstring not found in set/dict"
     return None
 
-def nontrivial(c, obs): return len(c.get('a', c.get('bits', 'x'))) > 0
+def nontrivial(c, obs): return len(c.get('a', c.get('bits', 'x'))) > 0 if c['op'] != 'combine' else len(combine_model(c)[0]) > 0
 
 def classify(c, obs): return None
 
